@@ -163,6 +163,8 @@ def _source_kind(it):
         return "type hints"
     if it[0] == "attr" and it[2] == "__slots__":
         return "__slots__"
+    if T.is_call_to(it, "builtins.getattr") and len(it[2]) >= 2 and it[2][1] == ("const", "__slots__"):
+        return "__slots__"
     if it[0] == "call" and it[1][0] == "attr" and it[1][2] == "items" and T.is_call_to(it[1][1], "builtins.vars"):
         return "vars()"
     if T.is_call_to(it, "builtins.vars"):
@@ -184,6 +186,14 @@ def r18_4(prog, rep):
             for p in ps:
                 for tm in p.all_terms():
                     comps += [s for s in T.walk(tm) if s[0] == "comp"]
+    # ... and the module-level functions it hands out instead of closures (`return _itervars`, `partial(_iterfields, names)`)
+    for _p, r in P.returns(P.paths_of(prog, f)):
+        for x in T.walk(r):
+            g = prog.functions.get(x[1]) if x[0] == "ref" else None
+            if g is not None and g is not f and g.module is f.module:
+                for p in P.paths_of(prog, g):
+                    for tm in p.all_terms():
+                        comps += [s for s in T.walk(tm) if s[0] == "comp"]
     found = {}
     for c in comps:
         if not c[3]:
@@ -337,6 +347,12 @@ def r18_5(prog, rep):
 def _is_items_caller(prog, dotted) -> bool:
     mn, _, nm = dotted.rpartition(".")
     m = prog.modules.get(mn)
+    fn = prog.functions.get(dotted)
+    if fn is not None and fn.params:
+        # a plain function `def items(val): return val.items()`
+        rets = [r for _p, r in P.returns(P.paths_of(prog, fn))]
+        want = ("call", ("attr", ("param", fn.params[0]), "items"), (), ())
+        return bool(rets) and all(r == want or r == ("call", ("ref", "builtins.iter"), (want,), ()) for r in rets)
     if not m or nm not in m.assigns:
         return False
     tm = P.Evaluator(prog, m).expr(m.assigns[nm], {})
